@@ -47,9 +47,14 @@ package dmarc
 
 // ---- C07: verdict to action ----
 //@ pure func tempLookupErr(e error) bool = isType(e, "*net.DNSError") && dnsTemp(as(e, "*net.DNSError"))
+// gDmarcPolicy / gDmarcValue name the outcome of the most recent Apply call (ghost definitions used by the caller's
+// contract in msgpipeline; they constrain nothing).
+//@ ghost var gDmarcPolicy godmarc.Policy
+//@ ghost var gDmarcValue authres.ResultValue
 //@ func (*Verifier).Apply
-//@   prop C07
-//@   modifies *
+//@   prop C07 C06
+//@   modifies chans(), gDmarcPolicy, gDmarcValue
+//@   trusted-ensures gDmarcPolicy == result1 && gDmarcValue == result0.Authres.Value
 //@   ensures data.recordErr != nil && tempLookupErr(data.recordErr) ==> result1 == godmarc.PolicyReject && result0.Authres.Value == authres.ResultTempError
 //@   ensures data.recordErr != nil && !tempLookupErr(data.recordErr) ==> result1 == godmarc.PolicyNone && result0.Authres.Value == authres.ResultPermError
 //@   ensures data.recordErr == nil && data.record == nil ==> result1 == godmarc.PolicyNone && result0.Authres.Value == authres.ResultNone
@@ -74,3 +79,10 @@ package dmarc
 //@   ensures !hardErr(txtErr(r, fqdn("_dmarc." + fromDomain))) && len(txtRecs(r, fqdn("_dmarc." + fromDomain))) == 0 && !etld1ok(fromDomain) ==> err != nil && rec == nil
 //@   ensures !hardErr(txtErr(r, fqdn("_dmarc." + fromDomain))) && len(txtRecs(r, fqdn("_dmarc." + fromDomain))) == 0 && etld1ok(fromDomain) && hardErr(txtErr(r, fqdn("_dmarc." + etld1(fromDomain)))) ==> err == txtErr(r, fqdn("_dmarc." + etld1(fromDomain))) && rec == nil
 //@   ensures !hardErr(txtErr(r, fqdn("_dmarc." + fromDomain))) && len(txtRecs(r, fqdn("_dmarc." + fromDomain))) == 0 && etld1ok(fromDomain) && !hardErr(txtErr(r, fqdn("_dmarc." + etld1(fromDomain)))) && len(txtRecs(r, fqdn("_dmarc." + etld1(fromDomain)))) == 0 ==> err == nil && rec == nil
+
+// The asynchronous fetch touches only the verifier's own channel and cancel function (frame assumed: the lookup runs
+// in a goroutine whose effects are confined to values it creates).
+//@ func (*Verifier).FetchRecord
+//@   prop C07 C06
+//@   modifies v.fetchCancel, chans()
+//@   noframe
